@@ -9,7 +9,7 @@ EXPLANATION = (
     "quaternions / angles / measurements / offsets at once, that the tangent of every error component equals entry [i][j] "
     "of the reported Jacobian."
 )
-BOUNDS = "8 edge kinds (fresh edge, and after a history: all queries evaluated once, then vertices moved in place / rebound) x 2 vertices x every error component x every perturbation direction; exact real arithmetic (no rounding); SE(2) wrap excluded (derivative taken on the branch k=const)"
+BOUNDS = "8 edge kinds (fresh edge, and after a history: all queries evaluated once, then vertices moved in place / rebound; both vertices marked fixed) x 2 vertices x every error component x every perturbation direction; exact real arithmetic (no rounding); SE(2) wrap excluded (derivative taken on the branch k=const)"
 OUTSIDE = "floating-point rounding; the measure-zero set where the SE(2) angular error wraps"
 ASSUMPTIONS = [
     "dual-number semantics of + - * / sqrt cos sin is the derivative (validated per run against a central difference of the real calc_error on float64)",
